@@ -48,7 +48,7 @@ RULE = ('(a) every supported protocol version x compression {off, 0, 256} x '
         'and one event per quiescence.  (c2) m queued chat packets from the '
         'user (m around the 50 / 300 batch limits) followed by n keep-alives '
         'and a disconnect.  (d) the ONLY family in which the environment '
-        'fails writes (vnet send_after_close = ok_once and raise; the plain '
+        'fails writes (vnet send_after_close = ok_once, raise, reset_once, reset, i.e. EPIPE or ECONNRESET at once or after one accepted write; the plain '
         'RefServer that really closes after its disconnect packet): on '
         'versions 47/340/757 x compression {off, 256}, once the client is '
         'idle the server sends in one burst 49 unknown-id frames and one '
@@ -77,9 +77,10 @@ ASSUMPTIONS = [
     'family (d) is the only place where send faults are injected (write to '
     'a peer that has closed: first send call accepted and the next refused, '
     'or refused at once); its shape '
-    'is fixed to the one in which the library as written owes a clean '
-    'ending; whether a write fault during the flush of disconnect() should '
-    'be forgiven too is not decided here (observation only)',
+    'includes the one in which the 50-read quota leaves exactly one reply '
+    'for the next lap, and (since /repo 99feca0 absorbs a failing flush '
+    'inside disconnect()) the shapes in which one or two replies are still '
+    'queued when the disconnect packet is reacted to',
     'ids of development snapshots and the publication order of protocol '
     'numbers (KNOWN_PROTOCOL_VERSIONS) are taken from the tree under test; '
     'bytes are always encoded/decoded by vf.refproto',
@@ -739,7 +740,7 @@ def w_family_q(ctx, task):
 
 
 D_VERSIONS = (47, 340, 757)
-D_ENVS = ('ok_once', 'raise')
+D_ENVS = ('ok_once', 'raise', 'reset_once', 'reset')
 D_UNKNOWN = (U1, U0, UM)
 
 
@@ -766,9 +767,12 @@ def d_cases():
     for pos in (49, 0, 24):
         out.append(('49 unknown + keep-alive at %d' % pos,
                     d_events(49, (pos,)), True))
-    out.append(('48 unknown + keep-alive', d_events(48, (48,)), False))
-    out.append(('50 unknown + keep-alive', d_events(50, (50,)), False))
-    out.append(('48 unknown + 2 keep-alives', d_events(48, (48, 49)), False))
+    # one or two replies still queued when the disconnect packet is reacted
+    # to: the flush inside disconnect() meets the dead peer (absorbed since
+    # /repo 99feca0, so these shapes are judged as well)
+    out.append(('48 unknown + keep-alive', d_events(48, (48,)), True))
+    out.append(('50 unknown + keep-alive', d_events(50, (50,)), True))
+    out.append(('48 unknown + 2 keep-alives', d_events(48, (48, 49)), True))
     return out
 
 
@@ -857,6 +861,8 @@ def run(ctx):
             'family c2', 'family d',
             'd: write fault forgiven by the disconnect packet (ok_once)',
             'd: write fault forgiven by the disconnect packet (raise)',
+            'd: write fault forgiven by the disconnect packet (reset_once)',
+            'd: write fault forgiven by the disconnect packet (reset)',
             'layout varint/echo', 'layout varint/confirm',
             'layout long/confirm', 'runs with reply kind keepalive',
             'runs with reply kind teleport_confirm',
